@@ -1068,6 +1068,8 @@ class Evaluator:
         a, b = st.subst.get(t[2], t[2]), st.subst.get(t[3], t[3])
         if is_c(a) and is_c(b):
             return True
+        if t[1] in ('in', 'notin') and is_c(a) and b[0] in ('list', 'tuple', 'set') and all(is_c(x) for x in b[1]):
+            return True
         if t[1] in ('==', '!=', '<', '<=', '>', '>='):
             for x in (a, b):
                 if not is_c(x):
